@@ -332,6 +332,31 @@ def connect(chk, crate):
         return any(x[0] == "call" and x[1] == SEQ_STREAM and x[3] == call_bb for x in walk(e))
     chk.require(any(from_stream(e, rbb) for _, e in props), "C09-c/registration-checked", "connect",
                 "a failed registration item does not abort the handshake", "`?` on every registration item", f.sp(rbb))
+    # ... and *every* failed item does: from the Err side of any test of an item of the two handshake streams, neither the next
+    # exchange nor the successful return is reachable (a failure that is only logged lets an unregistered connection through)
+    from mirlite import feasible_reach
+    for what, call_bb, later in (("registration", rbb, [ibb, okbb]), ("identity query", ibb, [okbb])):
+        for i in sorted(f.reach):
+            t = f.b.blocks[i]["term"]
+            if t["t"] != "switch":
+                continue
+            e = f.ex.operand(t["d"])
+            if e[0] != "discr" or not any(x[0] == "call" and x[1] == NEXT and any(from_stream(y, call_bb) for y in walk(x)) for x in walk(e)):
+                continue
+            v = f.tr.value(t["d"])
+            of = ty_str(v.rv.get("of")) if v.kind == "rv" and v.rv["r"] == "discr" else ""
+            if not of.startswith(("core::result::Result<", "core::ops::control_flow::ControlFlow<")):
+                continue
+            err_t = dict((v_, tb) for v_, tb in t["targets"]).get(1)
+            if err_t is None:
+                err_t = t["else"] if not any(v_ == 1 for v_, _ in t["targets"]) and any(v_ == 0 for v_, _ in t["targets"]) else None
+            if err_t is None:
+                continue
+            fr = feasible_reach(f.b, err_t)
+            passed = [b_ for b_ in later if b_ in fr]
+            chk.require(not passed, "C09-c/failed-item-aborts", "connect (%s)" % what,
+                        "after a failed %s item the handshake can still go on (to the next exchange or to Ok): the failure is not "
+                        "returned on every path" % what, "Err -> return Err", f.sp(i))
     chk.require(any(from_stream(e, ibb) for _, e in props), "C09-c/identity-checked", "connect",
                 "a failed identity query does not abort the handshake", "`?` on the system-info item", f.sp(ibb))
     # both streams run on the socket under construction, which is what is returned
